@@ -15,7 +15,10 @@ Definition call := (string * list string)%type.
 Definition acall_of (c : call) : acall := {| ac_name := fst c; ac_args := snd c |}.
 
 (* one call of apply_actions(domain, state, members, allow, objects) *)
-Record jrun := { r_members : list call; r_allow : bool; r_obs : jobs }.
+(* [r_intact]: what the driver saw around the call - the state object passed in serializes as before the call
+   (is_init flag, facts, fluents) and the returned state is another object.  The model is a pure function: a run
+   that is not intact neither agrees with it nor satisfies the spec. *)
+Record jrun := { r_members : list call; r_allow : bool; r_obs : jobs; r_intact : bool }.
 
 Record jstep_obs := { js_pre : mstate; js_ops : list string; js_post : mstate }.
 
@@ -32,7 +35,9 @@ Record jcase := {
   j_exporter_allow : bool;              (* MultiAgentTrajectoryExporter(domain, allow_invalid_actions) *)
   j_strict : bool;                      (* the plan lines are well-formed lower-case joint actions: the spec judges *)
   j_trace : obs (list jstep_obs);
-  j_export : obs string
+  j_export : obs string;
+  j_intact : bool                       (* plan unit: the state objects handed to the exporter / the problem's initial state
+                                           serialize as before the call and no returned state is the object passed in *)
 }.
 
 Definition j_numtab (c : jcase) : string -> option float := fun s => lookup s (j_nums c).
@@ -150,7 +155,10 @@ Definition spec_joint_line (line : string) : option (list call) :=
   groups_of (tokenize MStr (s2t line)) None.
 
 (* ---------- verdicts: one per run, then one for the plan ---------- *)
-Definition run_verdict (c : jcase) (r : jrun) : verdict * ascii :=
+Definition with_intact (b : bool) (va : verdict * ascii) : verdict * ascii :=
+  ({| v_agree := v_agree (fst va) && b; v_ok := v_ok (fst va) && b; v_known := v_known (fst va) |}, snd va).
+
+Definition run_verdict0 (c : jcase) (r : jrun) : verdict * ascii :=
   let agree := match j_mdomain c with Ok d => jobs_eqb (model_run c d r) (r_obs r) | Err _ => false end in
   match j_sdomain c with
   | None => ({| v_agree := agree; v_ok := false; v_known := false |}, "x"%char)
@@ -162,6 +170,8 @@ Definition run_verdict (c : jcase) (r : jrun) : verdict * ascii :=
       | _, None => ({| v_agree := agree; v_ok := true; v_known := false |}, class_char k)
       end
   end.
+
+Definition run_verdict (c : jcase) (r : jrun) : verdict * ascii := with_intact (r_intact r) (run_verdict0 c r).
 
 (* the spec's run of a joint plan: Some (steps) when every line is judged (refusal makes the whole run 'raised') *)
 Inductive plan_expect := PSkip (k : jclass) | PRaise | PSteps (l : list (state * list string * state)).
@@ -208,7 +218,7 @@ Definition jitems_of_trace (tr : list jstep_obs) : option (list xitem) :=
   | t :: _ => Some (XState (js_pre t) :: flat_map (fun t => [XOp (js_ops t); XState (js_post t)]) tr)
   end.
 
-Definition plan_verdict (c : jcase) : verdict * ascii :=
+Definition plan_verdict0 (c : jcase) : verdict * ascii :=
   let agree := model_plan_agrees c in
   if negb (j_strict c) then ({| v_agree := agree; v_ok := true; v_known := false |}, "m"%char) else
   match j_sdomain c with
@@ -233,11 +243,21 @@ Definition plan_verdict (c : jcase) : verdict * ascii :=
       end
   end.
 
+Definition plan_verdict (c : jcase) : verdict * ascii := with_intact (j_intact c) (plan_verdict0 c).
+
 (* two characters per unit (verdict, class); units = the runs, then the plan *)
 Definition judge_case (c : jcase) : list (verdict * ascii) := map (run_verdict c) (j_runs c) ++ [plan_verdict c].
 
 Definition run2 (cases : list jcase) : string :=
   t2s (flat_map (fun c => flat_map (fun va => [verdict_char (fst va); snd va]) (judge_case c)) cases).
+
+(* one step of a process-level sequence is a case of its own (the model is a pure function of THAT call's inputs);
+   a step that is a direct apply_actions call has no plan unit: (false, case) *)
+Definition judge_case_sel (pc : bool * jcase) : list (verdict * ascii) :=
+  map (run_verdict (snd pc)) (j_runs (snd pc)) ++ (if fst pc then [plan_verdict (snd pc)] else []).
+
+Definition run2_sel (cases : list (bool * jcase)) : string :=
+  t2s (flat_map (fun pc => flat_map (fun va => [verdict_char (fst va); snd va]) (judge_case_sel pc)) cases).
 
 Definition explain (c : jcase) :=
   (match j_mdomain c with
